@@ -161,7 +161,7 @@ RunResult run_w3(const Plan& pl) {
 Plan gen_w3(uint64_t seed, const std::string& tier, const std::string& focus) {
     Plan pl; pl.workload = "w3"; pl.seed = seed; sim::Rng r(seed * 49979687 + 11);
     bool thorough = tier == "thorough";
-    int mode = (focus == "C15") ? 1 : (r.coin(0.65) ? 0 : 1); pl.p["mode"] = mode;
+    int mode = (focus == "C15" || focus == "tsan") ? 1 : (r.coin(0.65) ? 0 : 1); pl.p["mode"] = mode;
     const double R = 5e-6; pl.p["lmin"] = R * r.uni(0.1, 0.3); pl.p["swap"] = r.coin(0.3);
     int n = mode == 0 ? r.range(1, 3) : r.range(2, thorough ? 10 : 7); pl.p["ncells"] = n;
     for (int k = 0; k < n; k++) {
@@ -176,6 +176,7 @@ Plan gen_w3(uint64_t seed, const std::string& tier, const std::string& focus) {
     if (r.coin(0.3)) { pl.p["growth_sigma"] = 4e-12; pl.p["div_sigma"] = 1e-16; }
     pl.p["clock"] = (mode == 1) ? 0 : (int)r.below(3);
     draw_schedule(pl, r, 8); if (mode == 1 && pl.geti("team") < 2) pl.p["team"] = r.range(2, 8);
+    if (focus == "tsan") { pl.p["mode"] = 1; pl.p["free_running"] = 1; pl.p["team"] = r.range(2, 8); pl.ops.clear(); }
     // injected stage failure (mode 0 only: with a fault the team run legitimately differs in which call index fails)
     if (mode == 0 && r.coin(0.4)) {
         static const int stages[] = {sim::PH_DIV_ADD_INTERSECTION, sim::PH_DIV_DIVIDE_FACES, sim::PH_DIV_TRIANGULATE_IF, sim::PH_DIV_CREATE_DAUGHTERS, sim::PH_POISSON_CLOUD, sim::PH_REFINE_MESH, sim::PH_REBASE, sim::PH_INIT_CELL_PROPS};
